@@ -206,4 +206,5 @@ def run(ctx):
             r0.violation(r0.id + "::witness", d, "")
         for r in ctx.rules[n0:]:
             r.min_instances = 0
-    ctx.reconcile(ctx.rules[n0:], lambda c: "plugins/touch.py" in c and "memo" not in c and "cache" not in c, (w[0], [], w[2]) if True else w, "src/gwf/plugins/touch.py::touch", "src/gwf/plugins/touch.py:1")
+    if not w[1]:
+        ctx.reconcile(ctx.rules[n0:], lambda c: "plugins/touch.py" in c and "memo" not in c and "cache" not in c, w, "src/gwf/plugins/touch.py::touch", "src/gwf/plugins/touch.py:1")
